@@ -25,6 +25,7 @@ type Shape struct {
 	ManyTxs       bool
 	Avoid         map[string]bool
 	Probes        int
+	ShareBound    int // percent of anti-MEV worlds whose final block depends on the builder's share set at the last height
 }
 
 var epoch0 = time.Date(2024, 1, 1, 0, 0, 0, 0, time.UTC)
@@ -192,6 +193,7 @@ func RunSafety(r sim.Src, mons []*sim.Mon, keepLog bool, sh Shape) *sim.World {
 	if amev >= 0 && r.Intn("predata", 2) == 1 {
 		cfg.PreDataTxOnly = true // NeoX-like shares: valid for every pre-block of the height with these transactions
 	}
+	shareBound := amev >= 0 && sh.ShareBound > 0 && sim.Scramble(r.Intn("sharebound", 100), 100) < sh.ShareBound
 	w := sim.NewWorld(cfg, r, byz, watch, mons, keepLog)
 	if cfg.PreDataTxOnly {
 		w.Stat("predata_tx_only")
@@ -209,6 +211,10 @@ func RunSafety(r sim.Src, mons []*sim.Mon, keepLog bool, sh Shape) *sim.World {
 	heights := 1 + r.Intn("heights", max(1, sh.MaxHeights))
 	if sh.MaxHeights == 0 {
 		heights = 1 + r.Intn("heights", 3)
+	}
+	if shareBound {
+		w.Cfg.ShareBoundFrom = cfg.StartTip + uint32(heights) // the last height of the run only: forks end there
+		w.Stat("share_bound_final_block")
 	}
 	steps := (120 + r.Intn("steps", 5)*100) * max(n, 3) / 4
 	if sh.StepsFactor > 0 {
